@@ -33,12 +33,22 @@ bool Xml::write(const Xml& e, const String& path)
 Xml::Xml(const String& tag, const String& val) : NodeBase(new _Xml(tag))
 {
 	_()->children << XmlText(val);
+	adopt();
 }
 
 Xml::Xml(const String& tag, const Map<>& attrs, const String& val) : NodeBase(new _Xml(tag))
 {
 	_()->attribs = attrs;
 	_()->children << XmlText(val);
+	adopt();
+}
+
+Xml::_Xml::~_Xml()
+{
+	// children that are still referenced elsewhere must not keep a pointer to this element
+	for (int i = 0; i < children.length(); i++)
+		if (children[i]._()->parent == this)
+			children[i]._()->parent = NULL;
 }
 
 Xml::_Xml* Xml::_Xml::clone(bool detach) const
@@ -92,8 +102,9 @@ void Xml::remove(const Xml& e)
 
 Xml& Xml::put(const String& value)
 {
-	_()->children.clear();
+	clear();
 	_()->children << XmlText(value);
+	adopt();
 	return *this;
 }
 
@@ -119,8 +130,10 @@ Xml& Xml::operator<<(const String& t)
 	_Xml* e = _();
 	if (e->children.length() > 0 && e->children.last().isText())
 		e->children.last().as<XmlText>().append(t);
-	else
+	else {
 		e->children << XmlText(t);
+		e->children.last()._()->parent = e;
+	}
 	return *this;
 }
 
